@@ -679,6 +679,11 @@ def rule_cloner(ctx, R):
                 seen_arrays.append(arr)
                 R.check(ok, "C13-R2", key + "|copy(%s)" % arr, "cell i of %s cloned into cell i of the new %s for i in 0..%s" % (arr, arr, "capacity" if arr == S.slots else "len"),
                         "copy loop writes %s[%s] <- %s; expected element-wise clone over Range(0, %s) into the array that becomes the clone's %s" % (arr, show(idx)[:80], show(val)[:120], "capacity" if arr == S.slots else "len", arr), where_of(f, e[5]), fn=f.key)
+        # C12-R6: len() of the clone equals the number of entities its handles resolve to only if the whole slot array (every position
+        # up to capacity, free ones included) is carried over next to `len`: judged on the slot copy found above
+        slot_ok = [e_ for e_ in R.okkeys if e_ == ("C13-R2", key + "|copy(%s)" % S.slots)]
+        R.check(bool(slot_ok) and seen_arrays.count(S.slots) == 1, "C12-R6", key + "|clone-keeps-every-slot", "the clone receives slot i for every i in 0..capacity, next to the source's len",
+                "the clone does not receive every slot of 0..capacity exactly once: positions left as freshly threaded free slots (or linked differently) make the clone's len() disagree with the entities its handles resolve to, and let it hand out a live entity's handle again", where_of(f), fn=f.key)
         want = [S.slots, S.entities] + S.columns
         R.check(sorted(x or "?" for x in seen_arrays) == sorted(want), "C04-R5", key + "|copy-set", "each array copied by exactly one loop write",
                 "loop writes cover %s; expected exactly one per array %s" % (seen_arrays, want), where_of(f), fn=f.key)
